@@ -30,6 +30,9 @@ def check_modified_block(
     def_ass_before = ctx.locals.keys()
     maybe_ass_before = def_ass_before | parent_cfg.maybe_ass_before[bb]
 
+    # The constraints of the enclosing context also apply to the body of the block
+    cfg.unitary_flags |= parent_cfg.unitary_flags
+
     cfg.analyze(def_ass_before, maybe_ass_before, [])
     captured = {
         x: (_set_inout_if_non_copyable(ctx.locals[x]), using_bb.vars.used[x])
